@@ -142,6 +142,7 @@ package decoder
 //@   ghost gidx int = 0
 //@   ghost graw int = 0
 //@   ensures result1 ==> 0 < result0.start && result0.start <= result0.end + 1 && result0.end + 2 <= len(data)
+//@   ensures result1 ==> gidx > 0
 //@   ensures result1 ==> result0.end + 2 == gidx + graw
 //@   ensures result1 ==> gidx + 1 <= result0.start && (limit >= 0 ==> result0.start <= gidx + 1 + limit)
 //@   callee GetBytes(json, path) (r)
@@ -151,6 +152,30 @@ package decoder
 //@     set gidx := r.Index
 //@     set graw := len(r.Raw)
 //@   callee Exists(t) (r)
+//@     pure
+
+// (gidx > 0: gjson reports Index 0 for a computed value - a path with a modifier
+// such as `a|@this` - for which "Raw is the text at Index" is false; such a result has
+// no position in the document and is not cut.  My first version of this contract
+// ASSUMED the text property for every result; a seeding agent's probe showed the
+// assumption false, the document start was cut instead.)
+
+// cutFieldsBySize, several limits: the cuts are applied from the back of the document
+// to its front, and a position at or behind the previous cut is skipped (two paths may
+// name the same field).  The positions are those findPos produced (its postcondition;
+// the sort permutes them: assumed at the cut, listed), so every slice is in range.
+
+//@ func (*jsonDecoder).cutFieldsBySize
+//@   option allow-exit yes
+//@   option inline-closures yes
+//@   ghost gidx int = 0
+//@   ghost graw int = 0
+//@   loop 1 invariant ok ==> 0 < pos.start && pos.start <= pos.end + 1 && pos.end + 2 <= len(data)
+//@   loop 3 invariant 0 <= prevStart && prevStart <= len(data)
+//@   assume at "data = append(data[:p.start], data[p.end+1:]...)" 0 < p.start && p.start <= p.end + 1
+//@   callee ValidBytes(b) (r)
+//@     pure
+//@   callee SortFunc(x, cmp)
 //@     pure
 
 // NewJsonDecoder: cutFieldsBySize takes its locked path (d.mu.Lock()) exactly when
